@@ -126,5 +126,7 @@ package metadata
 
 // the constructor applies caller-supplied option closures to a struct of its own
 //@ func New(opts) (md)
+// a nil option is a programming error of the caller (calling it panics), not an input
+//@   requires forall i int :: 0 <= i && i < len(opts) ==> opts[i] != nil
 //@   modifies nothing
 //@   ensures md != nil && fresh(md)
